@@ -29,13 +29,16 @@ BOUND_STEP = 120.0      # Rodas, 2-node tspan (worst observed 11.7)
 BOUND_DENSE = 60.0      # Rodas, dense tspan, problems outside the recorded finding (worst observed 5.0)
 
 
-def bound_for(sname, mode, rtol):
+def bound_for(sname, mode, rtol, problem=""):
+    # the families forced by cos(5t) oscillate five times faster than the others: their constants are about twice as large
+    # (worst observed on the unchanged tree: ode15s 105 / 2210, Rodas dense 72.8); a dropped time-derivative term gives > 1e4
+    k = 4.0 if "cos(5" in problem else 1.0
     if sname == "ode15s":
-        return 100.0 if rtol >= 1e-5 else 2000.0       # worst observed 9.8 / 185
-    return BOUND_STEP if mode == "two" else BOUND_DENSE
+        return k * (100.0 if rtol >= 1e-5 else 2000.0)       # worst observed 9.8 / 185
+    return k * (BOUND_STEP if mode == "two" else BOUND_DENSE)
 
 
-STIFF_FORCED = ("Prothero-Robinson", "dae x'=-x+z, 0=z-sin t")
+STIFF_FORCED = ("Prothero-Robinson", "dae x'=-x+z, 0=z-sin t", "dae x'=-x+z, 0=z+x-2cos(5t)")
 
 
 def families():
@@ -188,7 +191,7 @@ def run(rep, tier, seed):
                     ratio, at = ratio_of(sol, exact, rtol, atol)
                     key = (sname, mode, rtol)
                     table[key] = max(table.get(key, 0.0), ratio)
-                    bound = bound_for(sname, mode, rtol)
+                    bound = bound_for(sname, mode, rtol, name)
                     if not ratio <= bound:
                         in_recorded_class = mode == "dense" and sname != "ode15s" and name.startswith(STIFF_FORCED)
                         if in_recorded_class:
@@ -213,8 +216,9 @@ def run(rep, tier, seed):
                     continue
                 ratio, at = ratio_of(sol, exact, 1e-3, 1e-6)
                 table[("ode15s", "hmax-" + mode, 1e-3)] = max(table.get(("ode15s", "hmax-" + mode, 1e-3), 0.0), ratio)
-                if not ratio <= 100.0:
-                    fails.append((case, f"ode15s on {name} with hmax = {hm}: error / (atol + rtol|y|) = {ratio:.3g} at t = {at} exceeds 100"))
+                if not ratio <= bound_for("ode15s", mode, 1e-3, name):
+                    fails.append((case, f"ode15s on {name} with hmax = {hm}: error / (atol + rtol|y|) = {ratio:.3g} at t = {at} exceeds "
+                                        f"{bound_for('ode15s', mode, 1e-3, name)}"))
     # ---- a fast but smooth nonlinear transition: the end point is swept across its onset (step cuts on the last step)
     from scipy.integrate import solve_ivp
     from scipy.sparse import csc_array
